@@ -221,10 +221,18 @@ class MetadataGenerator:
         list_types: List[DList] = []
         dict_types: List[DDict] = []
         other_types: List[MetaData] = []
-        for item in t.types:
-            if isinstance(item, DOptional):
-                item = item.type
-                other_types.append(Null)
+        def flatten(items):
+            # Optional members contribute Null plus their nested type, which may be a union itself
+            for item in items:
+                if isinstance(item, DOptional):
+                    yield Null
+                    yield from flatten([item.type])
+                elif isinstance(item, DUnion):
+                    yield from flatten(item.types)
+                else:
+                    yield item
+
+        for item in flatten(t.types):
             if isinstance(item, dict):
                 types_to_merge.append(item)
             elif item in self.str_types_registry or item is str:
